@@ -44,6 +44,8 @@ def run_property(pid, tier, seed, write_baseline=False):
     sys.path.insert(0, VERIF)
     mod = prop_module(pid)
     ctx = Ctx(pid, tier, seed)
+    if tier == 'thorough':
+        os.environ['PV_CROSSCHECK'] = '1'        # LEMMA obligations are also sent to cvc5 (solver diversity)
     res: PropResult = mod.run(ctx)
     lines = []
     exit_code = 0
